@@ -49,6 +49,9 @@ var c26Assumptions = []string{
 	"while finding " + c26FindPrefixOverlap + " is listed open, a disagreement (no LIMIT) where dolt returns exactly the reference rows but some of them several times, for a query over a table with a prefix index and an index scan in dolt's plan, is attributed to it (counted as excluded_known); the pinned sub-test reports it",
 	"while finding " + c26FindLeftMerge + " is listed open, a disagreement whose dolt plan contains a LeftOuterMergeJoin and where dolt returns no more rows than the reference is attributed to it (counted as excluded_known); the pinned sub-test reports it",
 	"while finding " + c26FindPrefixMB + " is listed open, a COUNT query over a table with a prefix index whose dolt plan uses an index and whose dolt count is smaller than the reference count is attributed to it; row-returning queries that lose rows the same way fall under the subset gate of " + c26FindPrefixLower + " (both counted as excluded_known); the pinned sub-test reports it",
+	"while finding " + c26FindCIRanges + " is listed open, a disagreement (no LIMIT) on a query with an IN list whose dolt plan is a multi-range index scan and where dolt returns the reference rows with extra copies (or a larger COUNT) is attributed to it (counted as excluded_known); the pinned sub-test reports it",
+	"while finding " + c26FindHashJoinKey + " is listed open (not minimised, replays saved), a disagreement on a join with a collated key column or a literal comparison in ON whose dolt plan contains a HashLookup and where dolt returns fewer rows than the reference is attributed to it (counted as excluded_known)",
+	"grammar exclusion (go-mysql-server bug shared by both engines): GROUP BY takes at most one string/binary column, because the grouping key concatenates the values and ('', ' ') collides with (' ', ''); skipped group columns are counted as excluded_known",
 	"while finding " + c26FindKeylessCount + " is listed open, `SELECT COUNT(col) FROM <keyless table>` is not generated (counted as excluded_known); the pinned sub-test reports it",
 }
 
@@ -559,6 +562,33 @@ func c26PinnedPrefixMB(t *testing.T, srv *vsql.Server, admin *vsql.Session) stri
 	return ""
 }
 
+// c26FindCIRanges: an IN list with values that are equal under the column's collation ('Ab', 'aB'
+// under a _ci collation) becomes several index ranges that denote the same keys; dolt scans each
+// range and returns the rows once per range.
+const c26FindCIRanges = "C26-in-list-collation-equal-duplicates"
+
+func c26PinnedCIRanges(t *testing.T, srv *vsql.Server, admin *vsql.Session) string {
+	db := srv.NewDBName()
+	admin.MustExec(t, "CREATE DATABASE "+db)
+	defer admin.Exec("DROP DATABASE " + db)
+	s := srv.Session(t, "pinned", db)
+	defer s.Close()
+	s.MustExec(t, "CREATE TABLE t (k INT PRIMARY KEY, c VARCHAR(16) COLLATE utf8mb4_general_ci, KEY i (c))")
+	s.MustExec(t, "INSERT INTO t VALUES (1,'Ab'),(2,'aB'),(3,'A'),(4,'b')")
+	q := "SELECT k FROM t WHERE c IN ('Ab','aB')"
+	r := s.MustQuery(t, q)
+	if got := vsql.Show(r.Sorted()); got != "(1) (2)" {
+		return "t(k PK, c VARCHAR(16) COLLATE utf8mb4_general_ci, KEY (c)) = {(1,'Ab'),(2,'aB'),(3,'A'),(4,'b')}: " + q + " returned " + got + " want (1) (2)"
+	}
+	return ""
+}
+
+// c26FindHashJoinKey: thorough-tier disagreements, not minimised: a hash join (HashLookup in the
+// plan, the same plan in both engines) whose key contains a column with a case/accent-insensitive
+// collation, or whose ON clause carries an extra comparison with a literal, returns fewer rows in
+// dolt than in the reference engine. Evidence: the saved replays named in known_findings.json.
+const c26FindHashJoinKey = "C26-hashjoin-collated-or-literal-key-missing-rows"
+
 // c26FindKeylessCount: on a keyless table `SELECT COUNT(col) FROM t` (count fast path of
 // kvexec/count_agg.go) tests the NULL-ness of the value field one position to the left of col
 // (keyless value tuples start with the cardinality field).
@@ -684,6 +714,39 @@ func (c *qCase) runQuery(q qQuery) {
 		mismatch = !vsql.EqualStrings(dr.Ordered(), mr.Ordered())
 	} else {
 		mismatch = !vsql.EqualStrings(dr.Sorted(), mr.Sorted())
+	}
+	if mismatch && !q.Limit && vh.OpenFinding("C26", c26FindCIRanges) {
+		// rows (or a count) delivered once per collation-equal range of one index scan
+		dp, _ := plan()
+		pt := strings.Join(dp, "\n")
+		multi := strings.Contains(pt, "IndexedTableAccess") && strings.Contains(pt, "}, {")
+		isCount := len(dr.Data) == 1 && len(mr.Data) == 1 && (strings.HasPrefix(q.Form, "count") || q.Form == "joincount")
+		var dn, mn int
+		if isCount {
+			fmt.Sscan(dr.Data[0][0], &dn)
+			fmt.Sscan(mr.Data[0][0], &mn)
+		}
+		if multi && strings.Contains(strings.ToUpper(dsql), " IN (") && ((isCount && dn > mn) || (!isCount && qOnly(mr, dr) == "" && qSameSet(dr, mr))) {
+			c.rec.Excluded(1)
+			c.rec.Class("known:"+c26FindCIRanges, 1)
+			return
+		}
+	}
+	if mismatch && (q.has("ci_join_key") || q.has("literal_in_on")) && vh.OpenFinding("C26", c26FindHashJoinKey) {
+		dp, _ := plan()
+		pt := strings.Join(dp, "\n")
+		fewer := len(dr.Data) < len(mr.Data)
+		if len(dr.Data) == 1 && len(mr.Data) == 1 && q.Form == "joincount" {
+			var dn, mn int
+			fmt.Sscan(dr.Data[0][0], &dn)
+			fmt.Sscan(mr.Data[0][0], &mn)
+			fewer = dn < mn
+		}
+		if strings.Contains(pt, "HashLookup") && fewer {
+			c.rec.Excluded(1)
+			c.rec.Class("known:"+c26FindHashJoinKey, 1)
+			return
+		}
 	}
 	if mismatch && q.has("prefix_index_table") && vh.OpenFinding("C26", c26FindPrefixMB) && len(dr.Data) == 1 && len(mr.Data) == 1 &&
 		(strings.HasPrefix(q.Form, "count") || q.Form == "joincount" || q.Form == "distinctcount") {
@@ -973,6 +1036,16 @@ func TestVerif_C26(t *testing.T) {
 			t.Errorf("%s", msg)
 		}
 	})
+	t.Run("pinned_in_list_collation_equal_duplicates", func(t *testing.T) {
+		if msg := c26PinnedCIRanges(t, srv, admin); msg != "" {
+			if vh.OpenFinding("C26", c26FindCIRanges) {
+				vh.ReportKnown("C26", c26FindCIRanges, msg)
+				return
+			}
+			vh.NoteViolation(t.Name(), "", `{"sql":["CREATE TABLE t (k INT PRIMARY KEY, c VARCHAR(16) COLLATE utf8mb4_general_ci, KEY i (c))","INSERT INTO t VALUES (1,'Ab'),(2,'aB'),(3,'A'),(4,'b')","SELECT k FROM t WHERE c IN ('Ab','aB')"],"observed":"`+strings.ReplaceAll(msg, `"`, `'`)+`"}`)
+			t.Errorf("%s", msg)
+		}
+	})
 	t.Run("pinned_valuerow_null_comparison", func(t *testing.T) {
 		if msg := c26PinnedValueRowNull(t, srv, admin); msg != "" {
 			if vh.OpenFinding("C26", c26FindValueRowNull) {
@@ -1070,7 +1143,7 @@ func TestVerif_C26(t *testing.T) {
 			}
 		}
 		defer func() {
-			for _, k := range []string{"decimal_type_extreme_literal", "prefix_index_on_pk_column"} {
+			for _, k := range []string{"decimal_type_extreme_literal", "prefix_index_on_pk_column", "two_string_group_columns"} {
 				if n := qExcludedLits[k]; n > 0 {
 					rec.Excluded(n)
 					rec.Class("excluded:"+k, n)
